@@ -2,6 +2,7 @@ package props
 
 import (
 	"fmt"
+	"reflect"
 	"os"
 	"sort"
 	"strconv"
@@ -30,17 +31,20 @@ type c20Case struct {
 	Args []string `json:"args"` // positional parameters
 	Opts uint     `json:"opts"`
 	Ops  []c20Op  `json:"ops"`
+	// Sparse: the store is only compared with the model where the history has
+	// a "get" or "walk" operation, and at the end.
+	Sparse bool `json:"sparse,omitempty"`
 }
 
-var c20Names = []string{"a", "A", "b", "_x", "@", "*", "#", "?", "-", "$", "!", "0", "1", "2", "10", "01", "08", "010", ""}
+var c20Names = []string{"a", "A", "b", "_x", "IFS", "@", "*", "#", "?", "-", "$", "!", "0", "1", "2", "10", "01", "08", "010", "", "18446744073709551616"}
 
 func c20Special(n string) bool {
 	switch n {
 	case "@", "*", "#", "?", "-", "$", "!", "0":
 		return true
 	}
-	_, err := strconv.Atoi(n)
-	return err == nil
+	// a name made of digits is a positional parameter, however large
+	return n != "" && strings.Trim(n, "0123456789") == ""
 }
 
 // c20Expected returns what Get must report for a name.
@@ -93,7 +97,14 @@ func checkC20(c c20Case) error {
 	aliasSnap := oracle.Snapshot(env.Aliases)
 	optsSnap := env.Opts
 
+	var invariantGet, invariantWalk func(step string) error
 	invariant := func(step string) error {
+		if err := invariantGet(step); err != nil {
+			return err
+		}
+		return invariantWalk(step)
+	}
+	invariantGet = func(step string) error {
 		for _, n := range c20Names {
 			want, wset := c20Expected(n, model, c.Args, env.Opts)
 			var got interp.Var
@@ -112,6 +123,9 @@ func checkC20(c c20Case) error {
 				return fmt.Errorf("%s: Get(%q) = %q (set=%v), want %q (set=%v)", step, n, got.Value, gset, want, wset)
 			}
 		}
+		return nil
+	}
+	invariantWalk = func(step string) error {
 		seen := map[string]string{}
 		dup := ""
 		env.Walk(func(v interp.Var) {
@@ -217,7 +231,13 @@ func checkC20(c c20Case) error {
 					st[k] = v
 				}
 				ev := &ref.AEval{Store: st}
-				want, fault := ev.Eval(tree)
+				var want int64
+				var fault *ref.AFault
+				if tree == nil {
+					fault = &ref.AFault{Msg: "syntax error"}
+				} else {
+					want, fault = ev.Eval(tree)
+				}
 				var got []string
 				var gerr error
 				if e := guard(func() error { got, gerr = env.Expand(w, 0); return nil }); e != nil {
@@ -230,8 +250,11 @@ func checkC20(c c20Case) error {
 					return fmt.Errorf("%s: expansion %d of $((%s)): error %v, reference fault %v", step, round, op.Src, gerr, fault)
 				}
 				if fault == nil {
-					if len(got) != 1 || got[0] != strconv.FormatInt(want, 10) {
-						return fmt.Errorf("%s: expansion %d of $((%s)) = %q, want %d", step, round, op.Src, got, want)
+					// the result is unquoted text: it is split at the IFS of the moment
+					ifs, ifsSet := st["IFS"]
+					fields := ref.Split([]ref.Seg{{Text: strconv.FormatInt(want, 10)}}, ifs, ifsSet)
+					if !(len(got) == 0 && len(fields) == 0) && !reflect.DeepEqual(got, fields) {
+						return fmt.Errorf("%s: expansion %d of $((%s)) = %q, want %q (value %d, IFS %q set=%v)", step, round, op.Src, got, fields, want, ifs, ifsSet)
 					}
 					model = st
 				}
@@ -250,7 +273,12 @@ func checkC20(c c20Case) error {
 				return fmt.Errorf("harness: unknown expression %q", op.Src)
 			}
 			ev := &ref.AEval{Store: st}
-			_, fault := ev.Eval(tree)
+			var fault *ref.AFault
+			if tree == nil {
+				fault = &ref.AFault{Msg: "syntax error"} // not an expression: nothing is evaluated
+			} else {
+				_, fault = ev.Eval(tree)
+			}
 			var gerr error
 			if e := guard(func() error { _, gerr = env.Eval(op.Src); return nil }); e != nil {
 				return fmt.Errorf("%s: Eval %v", step, e)
@@ -262,7 +290,19 @@ func checkC20(c c20Case) error {
 				model = st
 			}
 		}
-		if err := invariant(step); err != nil {
+		// what is looked at after the step: everything (the default), or only
+		// what the history itself asks for ("get" / "walk" operations), so that
+		// state which is refreshed by being looked at can go stale in between
+		var err error
+		switch {
+		case !c.Sparse || i == len(c.Ops)-1:
+			err = invariant(step)
+		case op.Kind == "get":
+			err = invariantGet(step)
+		case op.Kind == "walk":
+			err = invariantWalk(step)
+		}
+		if err != nil {
 			return fmt.Errorf("%v\nhistory: %+v", err, c.Ops[:i+1])
 		}
 	}
@@ -306,6 +346,11 @@ var c20Exprs = map[string]*ref.ANode{
 	"7++":       {Kind: "postinc", S: "7"},
 	"--(a + 4)": {Kind: "predec", S: "(a + 4)"},
 	"++b":       {Kind: "preinc", S: "b"},
+	// not expressions (nil): a syntax error, also inside an operand that is not evaluated
+	"0 && (1 +": nil,
+	"1 || (2 *": nil,
+	"0 ? (a = 1": nil,
+	"a = 1 +":   nil,
 }
 
 func c20Alphabet() []c20Op {
@@ -320,7 +365,7 @@ func c20Alphabet() []c20Op {
 	for _, src := range []string{"a = 7", "a *= 3", "_x++"} {
 		ops = append(ops, c20Op{Kind: "eval", Src: src})
 	}
-	ops = append(ops, c20Op{Kind: "arith", Src: "a = 7"}, c20Op{Kind: "eval", Src: "--5"})
+	ops = append(ops, c20Op{Kind: "arith", Src: "a = 7"}, c20Op{Kind: "eval", Src: "--5"}, c20Op{Kind: "eval", Src: "0 && (1 +"}, c20Op{Kind: "walk"})
 	return ops
 }
 
@@ -372,6 +417,9 @@ func TestC20(t *testing.T) {
 		idx++
 		if idx%nsh == sh && len(prefix) > 0 {
 			run(t, c20Case{Args: []string{"p1"}, Ops: prefix}, false)
+			if len(prefix) > 1 {
+				run(t, c20Case{Args: []string{"p1"}, Ops: prefix, Sparse: true}, false)
+			}
 			if idx%5003 == 0 {
 				st.Sample(prefix)
 			}
@@ -408,7 +456,9 @@ func TestC20(t *testing.T) {
 		c.Opts = uint(rapid.SampledFrom([]interp.Option{0, interp.NoGlob, interp.AllExport | interp.XTrace}).Draw(rt, "opts"))
 		k := rapid.IntRange(1, 12).Draw(rt, "nops")
 		for i := 0; i < k; i++ {
-			switch rapid.IntRange(0, 6).Draw(rt, "op") {
+			switch rapid.IntRange(0, 7).Draw(rt, "op") {
+			case 7:
+				c.Ops = append(c.Ops, c20Op{Kind: "get"})
 			case 0:
 				c.Ops = append(c.Ops, c20Op{Kind: "set", Name: rapid.SampledFrom(c20Names).Draw(rt, "name"), Value: rapid.SampledFrom(values).Draw(rt, "value")})
 			case 1:
@@ -433,8 +483,16 @@ func TestC20(t *testing.T) {
 				_ = ordinary
 				c.Ops = append(c.Ops, c20Op{Kind: "eval", Src: rapid.SampledFrom(exprs).Draw(rt, "expr")})
 			case 6:
-				c.Ops = append(c.Ops, c20Op{Kind: "arith", Src: rapid.SampledFrom(exprs).Draw(rt, "expr")})
+				e := rapid.SampledFrom(exprs).Draw(rt, "expr")
+				if strings.Count(e, "(") != strings.Count(e, ")") {
+					e = "a = 1 +" // unbalanced parentheses cannot be written as $((...))
+				}
+				c.Ops = append(c.Ops, c20Op{Kind: "arith", Src: e})
 			}
+		}
+		c.Sparse = rapid.Bool().Draw(rt, "sparse")
+		if c.Sparse {
+			st.Class("history_with_sparse_observation")
 		}
 		run(rt, c, true)
 		st.ClassN("steps", int64(len(c.Ops)))
